@@ -432,6 +432,36 @@ func c05Directed(s *C05Script, c *core.Ctx) bool {
 			}
 		}
 	}
+	// "Memory bounded by a small multiple of the input size": sections that are all length
+	// fields - a PMT header followed by 0xFF up to section_length, so that every five bytes
+	// read as a stream entry announcing 4095 bytes of descriptors that are not there.
+	for _, n := range []int{200, 1021, 4093} {
+		in := []byte{0x00, 0x02, 0xB0 | byte(n>>8), byte(n), 0x00, 0x01, 0xC1, 0x00, 0x00, 0xE1, 0x00, 0xF0, 0x00}
+		for len(in) < 4+n {
+			in = append(in, 0xFF)
+		}
+		in = tight(in)
+		// (the allocation counter lags by up to a span per size class, about 2 MiB: the bound
+		// has to stay clear of that)
+		limit := uint64(4<<20 + 128*len(in))
+		a0 := core.HeapAllocs()
+		if !d.ro("psi.NewPMT(all length fields)", in, func() { psi.NewPMT(in) }) {
+			return false
+		}
+		if a := core.HeapAllocs() - a0; a > limit {
+			c.Fail("bounded_memory", "alloc_small_multiple:psi.NewPMT", fmt.Sprintf("%d bytes allocated for %d bytes of input (%.0fx)", a, len(in), float64(a)/float64(len(in))), "<= 128x input + 4 MiB")
+			return false
+		}
+		pk := parties.Flatten(parties.Packetise(in, parties.Carrier{PID: 0x64}))
+		a0 = core.HeapAllocs()
+		if !d.call("psi.ReadPMT(all length fields)", func() { psi.ReadPMT(bytes.NewReader(pk), 0x64) }) {
+			return false
+		}
+		if a := core.HeapAllocs() - a0; a > 2*limit {
+			c.Fail("bounded_memory", "alloc_small_multiple:psi.ReadPMT", fmt.Sprintf("%d bytes allocated for %d bytes of input", a, len(pk)), "<= 256x input + 8 MiB")
+			return false
+		}
+	}
 	// A PMT unit that loses its continuation (the first packet of a multi-packet unit, scanned
 	// past a pointer_field or a complete neighbour section), followed on the same PID by a
 	// complete PMT whose first packet carries only a few payload bytes: whatever a stream
